@@ -9,7 +9,7 @@ by the database always equal the actual rows and bytes of the visible state."
 Model: Gsu/Model/Db.lean; `step` is what `drv_c03` executes. `s.mt` is the state every later
 transaction starts from.
 -/
-import Gsu.Proofs.DbStep
+import Gsu.Proofs.DbInv9
 import Gsu.Gen.Dbphys
 namespace Gsu.Props.C03
 open Gsu.Db
@@ -61,15 +61,73 @@ theorem info_background (ti : Info) (n : Nat) (res : List Layer) (bts : List Bt)
     (ti.applyPersist bts).rows = ti.rows :=
   ⟨rfl, rfl, rfl, rfl, rfl, rfl⟩
 
-/-- info_exact — PARTIAL. Full statement: in every reachable state `nrows = rows.length` and
-`size = Σ row sizes`. Proved: the commit adds exactly the transaction's deltas (`dn`, `ds`) and
-nothing else changes the counts (`info_background`). Missing: `d.dn = |adds| - |dels|` and
-`dels ⊆ latest rows` (the transaction-view invariant over Output/Delete/Update, and the
-independence argument); these are checked by the correspondence and the direct oracle only. -/
-theorem info_exact_partial (d : TDif) (lti : Info) :
+/-- the commit adds exactly the transaction's deltas (`dn`, `ds`) to the counts and one delta to
+the list (was `info_exact_partial`; the full statement is `info_exact` below) -/
+theorem info_commit_deltas (d : TDif) (lti : Info) :
     (lay d lti).nrows = lti.nrows + d.dn ∧ (lay d lti).size = lti.size + d.ds ∧
     (lay d lti).deltas = lti.deltas ++ [⟨d.dn, d.ds⟩] :=
   ⟨rfl, rfl, rfl⟩
+
+/-- what an open transaction itself reports (`sti.nrows + d.dn`, `sti.size + d.ds`) is the number
+and the bytes of the rows it sees, given its snapshot's counts are exact -/
+theorem info_exact_tran_view (sti : Info) (d : TDif) (h : TVInv sti d)
+    (hn : sti.nrows = sti.rows.length) (hs : sti.size = rowsSize sti.rows) :
+    sti.nrows + d.dn = (d.view sti.rows).length ∧ sti.size + d.ds = rowsSize (d.view sti.rows) :=
+  ⟨hn ▸ h.cnt, hs ▸ h.sz⟩
+
+/-- info_exact, one commit: LayeredOnto of a transaction that satisfies the view invariant and
+passes the independence guard keeps `nrows = |rows|`, and — when the size of a row is the size of
+the record at its offset (`RowsIn g`, what an append-only store gives) — `size = Σ row sizes`. -/
+theorem info_exact_commit (sti lti : Info) (d : TDif) (hL : TblInv lti) (hS : TblInv sti)
+    (hT : TVInv sti d) (hind : indep d sti lti = true) (g : Ghost)
+    (hgL : RowsIn g lti.rows) (hgS : RowsIn g sti.rows) (hsz : lti.size = rowsSize lti.rows) :
+    (lay d lti).nrows = (lay d lti).rows.length ∧ (lay d lti).size = rowsSize (lay d lti).rows :=
+  ⟨(tblinv_lay hL hS hT hind).cnt, commit_size hL hS hT hind g hgL hgS hsz⟩
+
+/-- info_exact, the row count — FULL, all reachable states, no further hypothesis: after any
+history of well-formed operations every table reports `nrows = |rows|` and its delta bookkeeping
+(`BtreeNrows + Σ deltas = Nrows`, sizes too) holds. -/
+theorem info_count_exact (ops : List Op) (hok : OpsOK State.init ops) (j : Nat) (ti : Info)
+    (hj : (run State.init ops).mt[j]? = some ti) :
+    ti.nrows = ti.rows.length ∧ DeltasOK ti :=
+  ⟨((dbinv_reachable ops hok).tbl j ti hj).cnt, ((dbinv_reachable ops hok).tbl j ti hj).deltas⟩
+
+/-- info_exact — FULL, all reachable states: after any history of well-formed operations in which
+every record written (Output / Update) gets an offset no earlier record of the history got — what
+the append-only store guarantees (C18) — every table of the visible state reports
+`nrows = |rows|` and `size = Σ row sizes`. -/
+theorem info_exact (ops : List Op) (hok : OpsOK State.init ops) (hfr : (newOffs ops).Nodup)
+    (j : Nat) (ti : Info) (hj : (run State.init ops).mt[j]? = some ti) :
+    ti.nrows = ti.rows.length ∧ ti.size = rowsSize ti.rows :=
+  info_exact_reachable ops hok hfr j ti hj
+
+/-- … and so is what every transaction reports for every table it can see (what `info` shows
+inside a transaction: snapshot counts + its own deltas) = the rows and bytes of its view -/
+theorem info_exact_tran (ops : List Op) (hok : OpsOK State.init ops) (hfr : (newOffs ops).Nodup)
+    (t : Tran) (ht : t ∈ (run State.init ops).trans) (j : Nat) (sti : Info) (d : TDif)
+    (hs : t.snap[j]? = some sti) (hd : t.dif[j]? = some d) :
+    sti.nrows + d.dn = (d.view sti.rows).length ∧ sti.size + d.ds = rowsSize (d.view sti.rows) :=
+  info_exact_tran_reachable ops hok hfr t ht j sti d hs hd
+
+/-- the freshness hypothesis of `info_exact` is needed IN THE MODEL: if a history reuses the offset
+of a deleted record for a record of another size (impossible in an append-only store), a
+transaction whose snapshot still holds the old record can delete "offset 20" and subtract the
+old size — the model's independence guard compares offsets only. (A property of the model's
+abstraction "a row is its offset", not of the code: offsets are never reused, C18.) -/
+theorem info_size_offset_reuse_counter :
+    ∃ ops : List Op, OpsOK State.init ops ∧ ¬ (newOffs ops).Nodup ∧
+      ((run State.init ops).mt.map fun ti => (ti.size, rowsSize ti.rows)) = [(2, 0)] :=
+  ⟨[.table 1, .begin_ 0, .out 0 0 ⟨20, 5, [[1]]⟩, .commit 0, .begin_ 1, .begin_ 2, .del 2 0 20, .commit 2,
+    .begin_ 3, .out 3 0 ⟨20, 7, [[1]]⟩, .commit 3, .del 1 0 20, .commit 1],
+   opsOKb_sound _ _ (by decide), by decide, by decide⟩
+
+/-- the hypothesis "a table has a key" (`OpOK` of `table n`: n ≥ 1) is needed in the model: with no
+index the independence guard has nothing to compare and two transactions delete the same row. (In
+the code every table has a key.) -/
+theorem info_keyless_table_counter :
+    ∃ ops : List Op, ((run State.init ops).mt.map fun ti => (ti.nrows, ti.rows.length)) = [(-1, 0)] :=
+  ⟨[.table 0, .begin_ 0, .out 0 0 ⟨20, 5, []⟩, .commit 0, .begin_ 1, .begin_ 2, .del 1 0 20, .del 2 0 20,
+    .commit 1, .commit 2], by decide⟩
 
 /-- (G) the write limit and its comparison are the ones in tran.go; the slice arithmetic of
 MergeUpdate.Apply1 / WithMerged / WithSaved is the one the model uses (take/drop at 1+n). -/
@@ -84,5 +142,25 @@ theorem gen_write_limit_and_slices :
 -- non-vacuity: a real commit that reports ok
 example : (step (run State.init [.table 1, .begin_ 0, .out 0 0 ⟨20, 5, [[1]]⟩]) (.commit 0)).2 = "ok" := by
   decide
+
+/-- a concrete history: two indexes, three commits (one of them between the compute and the apply
+of a merge, one between the compute and the apply of a persist, by a transaction with an older
+snapshot), Update, Delete, an index build on the populated table and a commit onto it -/
+def hist : List Op := [.table 2,
+  .begin_ 0, .out 0 0 ⟨20, 5, [[1], [7]]⟩, .out 0 0 ⟨30, 6, [[2], [8]]⟩, .commit 0,
+  .begin_ 1, .begin_ 2,
+  .upd 1 0 20 ⟨40, 9, [[1], [9]]⟩,
+  .mergeC 0 1, .commit 1, .mergeA,
+  .del 2 0 30,
+  .persistC, .commit 2, .persistA,
+  .buildC 0 [(40, [3])], .buildA,
+  .begin_ 3, .out 3 0 ⟨50, 4, [[4], [4], [4]]⟩, .commit 3]
+
+-- non-vacuity of `info_exact`: the hypotheses hold for this history, all its steps succeed, and
+-- the counts it ends with are the ones the theorem predicts (2 rows, 9 + 4 bytes)
+example : OpsOK State.init hist ∧ (newOffs hist).Nodup := ⟨opsOKb_sound _ _ (by decide), by decide⟩
+example : (step (run State.init (hist.take 13)) (.commit 2)).2 = "ok" := by decide
+example : ((run State.init hist).mt.map fun ti => (ti.nrows, ti.size, ti.rows.length, rowsSize ti.rows)) =
+    [(2, 13, 2, 13)] := by decide
 
 end Gsu.Props.C03
